@@ -2,5 +2,5 @@
 # Independent re-check of every compiled property file (and everything it depends on) with coqchk; prints the context summary
 # (axioms, type-in-type, unsafe fixpoints, assumed positivity).  Long (minutes); not part of the per-change checks.
 cd "$(dirname "$0")/../coq" || exit 2
-mods=$(ls Props/Properties_C??.v | sed 's|/|.|; s|\.v$||; s|^|LLB.|')
+mods=$(ls Props/Properties_C??.v Props/Properties_impl.v | sed 's|/|.|; s|\.v$||; s|^|LLB.|')
 timeout 7200 coqchk -o -silent -Q . LLB $mods 2>&1 | tail -20
